@@ -7,6 +7,7 @@
 package pe
 
 import (
+	"sync"
 	"sync/atomic"
 	"fmt"
 	"go/token"
@@ -182,6 +183,12 @@ func (h *heap) siteObj(name string, t types.Type, site ssa.Instruction, key stri
 	h.touch()
 	for _, o := range h.objs {
 		if o.siteKey == key && o.Site == site {
+			if localOnly(site) {
+				// no pointer to the previous instance can survive: strong reset
+				o.Cells = map[string]Val{}
+				o.DefZero = true
+				return o
+			}
 			// join old contents with a zero-initialised object
 			for k, v := range o.Cells {
 				if !isZeroVal(v) {
@@ -195,6 +202,55 @@ func (h *heap) siteObj(name string, t types.Type, site ssa.Instruction, key stri
 	o := h.newObj(name, t, true, site)
 	o.siteKey = key
 	return o
+}
+
+var localOnlyCache sync.Map
+
+// localOnly reports whether the address produced by an Alloc is used only to
+// load from / store into the object (directly or through field and index
+// addresses): it is never stored, passed, captured, compared or merged in a
+// phi, so when the Alloc executes again the previous instance is dead.
+func localOnly(site ssa.Instruction) bool {
+	al, ok := site.(*ssa.Alloc)
+	if !ok {
+		return false
+	}
+	if v, ok := localOnlyCache.Load(al); ok {
+		return v.(bool)
+	}
+	var onlyAddr func(v ssa.Value, depth int) bool
+	onlyAddr = func(v ssa.Value, depth int) bool {
+		if depth > 8 || v.Referrers() == nil {
+			return false
+		}
+		for _, ref := range *v.Referrers() {
+			switch r := ref.(type) {
+			case *ssa.FieldAddr:
+				if !onlyAddr(r, depth+1) {
+					return false
+				}
+			case *ssa.IndexAddr:
+				if r.X != v || !onlyAddr(r, depth+1) {
+					return false
+				}
+			case *ssa.UnOp:
+				if r.Op != token.MUL {
+					return false
+				}
+			case *ssa.Store:
+				if r.Addr != v || r.Val == v {
+					return false
+				}
+			case *ssa.DebugRef:
+			default:
+				return false
+			}
+		}
+		return true
+	}
+	res := onlyAddr(al, 0)
+	localOnlyCache.Store(al, res)
+	return res
 }
 
 func isZeroVal(v Val) bool {
@@ -233,7 +289,11 @@ func sameVal(a, b Val) bool {
 		if a.Len == b.Len {
 			return true
 		}
-		return a.Len != nil && b.Len != nil && a.Len.K == Int && b.Len.K == Int && a.Len.I == b.Len.I
+		ak, bk := a.Len != nil && a.Len.K == Int, b.Len != nil && b.Len.K == Int
+		if !ak && !bk {
+			return true // both lengths unknown
+		}
+		return ak && bk && a.Len.I == b.Len.I
 	case Iface:
 		return types.Identical(a.T, b.T) && a.Inner != nil && b.Inner != nil && sameVal(*a.Inner, *b.Inner)
 	case Struct, Tuple:
